@@ -90,6 +90,22 @@ ANCHORS = [
     # C18: persistence mechanisms
     ("RESUME_SAVE_CALLS_IN_ENGINE", "src/sync/mod.rs", r"pub async fn sync\(&self[\s\S]*?\n    \}\n", "count:state\\.save\\(|resume_state\\.save\\(|\\.save\\(destination\\)\\s*\\{?[^\\n]*resume"),
     ("DIRCACHE_ROOT_KEY", "src/sync/mod.rs", r'let source_path = PathBuf::from\("([^"]*)"\);\s*!cache\.needs_rescan\(&source_path, source_mtime\)', "str"),
+    # --- C01 byte-level transfer paths (SyModel/Transfer/BlockCompare.lean) ---
+    # every BufReader of the block loops / of the sampler has the same capacity ("nat_all": >= 1 match, all equal)
+    ("XFER_BUFREADER_CAP", "src/transport/local.rs", r"BufReader::with_capacity\(\s*([0-9_\s\*]+?),", "nat_all"),
+    ("XFER_BUFREADER_CAP_RATIO", "src/delta/ratio.rs", r"BufReader::with_capacity\(\s*([0-9_\s\*]+?),", "nat_all"),
+    ("XFER_SMALL_DEST_GATE", "src/transport/local.rs", r"^\s*if dest_size < ([0-9_]+) \{", "nat"),
+    ("XFER_SAMPLE_COUNT", "src/transport/local.rs", r"^\s*Some\(([0-9]+)\), // Sample [0-9]+ blocks", "nat"),
+    ("XFER_RATIO_THRESHOLD", "src/transport/local.rs", r"^\s*Some\(([0-9]+\.[0-9]+)\), // [0-9]+% threshold", "ratio"),
+    ("XFER_SIZE_DIFF_RATIO", "src/delta/ratio.rs", r"^\s*if size_diff_ratio > ([0-9]+\.[0-9]+) \{", "ratio"),
+    ("XFER_USE_DELTA_IS_LE", "src/delta/ratio.rs", r"^\s*(let use_delta = change_ratio <= threshold;)", "flag"),
+    ("XFER_SAMPLE_STEP_DIV", "src/delta/ratio.rs", r"^\s*(total_blocks / \(sample_count - 1\))\s*$", "flag"),
+    ("XFER_SAMPLE_IDX_CLAMP", "src/delta/ratio.rs", r"^\s*(\(i \* step\)\.min\(total_blocks\.saturating_sub\(1\)\))\s*$", "flag"),
+    ("XFER_TOTAL_BLOCKS_OF_DEST", "src/delta/ratio.rs", r"^\s*(let total_blocks = \(dest_size as usize\)\.div_ceil\(block_size\);)", "flag"),
+    ("XFER_COW_TRUNCATES", "src/transport/local.rs", r"^\s*(temp_file\.set_len\(bytes_written\))", "flag"),
+    ("XFER_INPLACE_PREALLOCATES", "src/transport/local.rs", r"^\s*(temp_file\.set_len\(source_size\))", "flag"),
+    ("XFER_MTIME_BEFORE_RENAME", "src/transport/local.rs",
+        (r"filetime::set_file_mtime\(\s*&temp_dest,", r"fs::rename\(&temp_dest, &dest\)"), "before"),
     ("TEMP_SUFFIX", "src/transport/local.rs", r'name\.push\("([^"]+)"\);', "str"),
 ]
 
@@ -102,6 +118,16 @@ def extract(repo):
             src = cache.setdefault(p, open(p).read())
         except OSError as e:
             errs.append(f"{name}: cannot read {rel}: {e}"); continue
+        if kind == "nat_all":
+            # several occurrences that must all denote the same number
+            ms_all = re.findall(rx, src, flags=re.M)
+            try:
+                vs = {num(m) for m in ms_all}
+            except Exception as e:
+                errs.append(f"{name}: {e}"); continue
+            if len(vs) != 1:
+                errs.append(f"{name}: anchor matched {len(ms_all)} times in {rel} with values {sorted(vs)} (expected >= 1 match, one value)"); continue
+            vals[name] = ("Nat", str(vs.pop())); continue
         if kind == "before":
             # Bool: the unique match of rx[0] lies before the unique match of rx[1]
             a = [m.start() for m in re.finditer(rx[0], src, flags=re.M)]
